@@ -5,3 +5,20 @@ impl Operation {
         ensures r@ == iter_pure(self, matcher.program.flags, matcher.search@, position as int),
     { unimplemented!() }
 }
+
+// CaptureState::set_paren_start / set_paren_end: contracts proved on the real text in unit `state`
+// (set_entry: entry g becomes Some(p), the other entries are kept, new entries are None)
+impl CaptureState {
+    #[verifier::external_body]
+    pub fn set_paren_start(&mut self, group_nr: usize, position: usize)
+        requires old(self).wf() && group_nr <= usize::MAX / 16,
+        ensures final(self).startn@.len() > group_nr && final(self).startn@[group_nr as int] == Some(position)
+            && final(self).endn == old(self).endn && final(self).paren_count == old(self).paren_count && final(self).wf(),
+    { unimplemented!() }
+    #[verifier::external_body]
+    pub fn set_paren_end(&mut self, group_nr: usize, position: usize)
+        requires old(self).wf() && group_nr <= usize::MAX / 16,
+        ensures final(self).endn@.len() > group_nr && final(self).endn@[group_nr as int] == Some(position)
+            && final(self).startn == old(self).startn && final(self).paren_count == old(self).paren_count && final(self).wf(),
+    { unimplemented!() }
+}
